@@ -164,12 +164,19 @@ CellVerdict(rec) ==
       actout == ActOf(rec, "out")
       always == {"out", "length", "name"}
       judged == SelectSeq(CellAspects(c), LAMBDA a : a \in always \/ actout = "ok")
+      \* the engine may have some of the listed defects repaired: an aspect is explained if SOME subset of the
+      \* deviations relevant to this cell predicts it (all of them is tried first)
+      rel == {d \in dv : CellAsIs(c, {d}) # ref \/ CellAsIs(c, dv) # CellAsIs(c, dv \ {d})}
       one(a) == LET act == ActOf(rec, a)
                     refok == (a \in always \/ ref["out"][1] = "ok") /\ act = ref[a][1]
-                    asisok == (a \in always \/ asis["out"][1] = "ok") /\ act = asis[a][1]
-                    dev == IF asis[a][2] # "" THEN asis[a][2] ELSE asis["out"][2]
+                    okUnder(S) == LET x == CellAsIs(c, S)
+                                  IN (a \in always \/ x["out"][1] = "ok") /\ act = x[a][1]
+                                     /\ (x[a][2] # "" \/ x["out"][2] # "")
+                    devUnder(S) == LET x == CellAsIs(c, S) IN IF x[a][2] # "" THEN x[a][2] ELSE x["out"][2]
+                    good == {S \in SUBSET rel : okUnder(S)}
                 IN IF refok THEN [aspect |-> a, v |-> "pass", dev |-> "", exp |-> ref[a][1], act |-> act]
-                   ELSE IF asisok /\ dev # "" THEN [aspect |-> a, v |-> "known", dev |-> dev, exp |-> ref[a][1], act |-> act]
+                   ELSE IF okUnder(rel) THEN [aspect |-> a, v |-> "known", dev |-> devUnder(rel), exp |-> ref[a][1], act |-> act]
+                   ELSE IF good # {} THEN [aspect |-> a, v |-> "known", dev |-> devUnder(CHOOSE S \in good : TRUE), exp |-> ref[a][1], act |-> act]
                    ELSE [aspect |-> a, v |-> "violation", dev |-> "", exp |-> ref[a][1], act |-> act]
       all == [j \in 1..Len(judged) |-> one(judged[j])]
   IN [id |-> rec.id, mis |-> SelectSeq(all, LAMBDA r : r.v # "pass"), n |-> Len(judged)]
